@@ -33,7 +33,7 @@ CHECKS = {
             "DESIGN.md §2.3, §2.4, §4 C05", "E2+E4"),
     "C06": ("exploration",
             "bounded exhaustive enumeration of ordered rewrite tables x queries through the real filter (and the real server for the wire level) against an independent resolver written from AGHTechDoc, with all-permutations and watchdog termination oracles",
-            "All ordered tables of <=3 entries over 81 (pattern, answer) pairs plus <=3 over a 24-entry sub-alphabet with an IPv4-mapped IPv6 value and <=4 over a 35-entry sub-alphabet (thorough: <=4 / <=5) x 11 names (incl. two that end like a wildcard's base without the label boundary) x A/AAAA/TXT through filtering.New + CheckHost, plus curated tables incl. acyclic CNAME chains of 18 and 40 links; every permutation of a table must resolve identically (except documented ties); each call under a 5 s watchdog. Wire level (each table built from the configuration in two orders and once through PUT /control/rewrite/update): real dnsforward server with a recording upstream answering with records, NODATA and NXDOMAIN: CNAME first, original question restored, upstream asked only for the canonical name, matched-without-value => empty NOERROR and no upstream call.",
+            "All ordered tables of <=3 entries over 81 (pattern, answer) pairs plus <=3 over a 24-entry sub-alphabet with an IPv4-mapped IPv6 value and <=4 over a 35-entry sub-alphabet (thorough: <=4 / <=5) x 11 names (incl. two that end like a wildcard's base without the label boundary) x A/AAAA/TXT through filtering.New + CheckHost, plus curated tables incl. acyclic CNAME chains of 18 and 40 links; every permutation of a table must resolve identically (except documented ties); each call under a 15 s watchdog. Wire level (each table built from the configuration in two orders and once through PUT /control/rewrite/update): real dnsforward server with a recording upstream answering with records, NODATA and NXDOMAIN: CNAME first, original question restored, upstream asked only for the canonical name, matched-without-value => empty NOERROR and no upstream call.",
             "several CNAME targets or several values for one and the same wildcard pattern are ties (either may win, order dependence not flagged); exact-over-wildcard shadowing among address entries accepted per kind or per family.",
             "DESIGN.md §4 C06", "E1-stateless"),
     "C07": ("model_checking",
